@@ -49,7 +49,16 @@ type Batch struct {
 	Order  int    `json:"order"`
 	IdleMs int    `json:"idle_ms,omitempty"` // after the last record keep listening this long: nothing else may arrive
 	Stress int    `json:"stress,omitempty"`  // two goroutines build the messages of the first two records this many times concurrently
+	Pub    *PubSpec `json:"publish,omitempty"` // the batch goes through the real DataPublisher.PublishData
 	Ops    []Case `json:"ops"`
+}
+
+// PubSpec: the records of the batch (one channel's records) are handed to DataPublisher.PublishData with these file
+// writers active; the messages are encoded only AFTER PublishData has returned (PublishData only queues the batch
+// for the publisher goroutines, which may get to it after the writers have run).
+type PubSpec struct {
+	Writers int  `json:"writers"` // bit 0: LJH 2.2, bit 1: LJH 3, bit 2: OFF
+	Paused  bool `json:"paused,omitempty"`
 }
 
 // ---------- value pools ----------
@@ -329,6 +338,59 @@ func e2eSlice() []Case {
 	return out
 }
 
+// genPubBatch: 1..4 records of ONE channel (same channel, signedness, presample count, length and number of
+// coefficients, as one DataStreamProcessor produces them) for DataPublisher.PublishData.  The first dozen walk
+// through every writer combination for a signed and an unsigned channel; samples cluster around the values where
+// signed and unsigned readings differ (0, -1, -2 = 65534, 32767/32768).
+func genPubBatch(r *lib.Rng, k int) Batch {
+	masks := []int{1, 2, 3, 4, 7, 0}
+	spec := &PubSpec{Writers: masks[k%len(masks)]}
+	signed := (k/len(masks))%2 == 0
+	if k >= 2*len(masks) {
+		spec.Writers = r.Intn(8)
+		signed = r.Chance(2, 3)
+		spec.Paused = r.Chance(1, 8)
+	}
+	n := r.Pick([]int{1, 2, 5, 16, 40})
+	if r.Chance(1, 10) {
+		n = 0
+	}
+	nc := r.Range(0, 4)
+	if spec.Writers&4 != 0 && nc == 0 {
+		nc = 2
+	}
+	ch := pickI64(r, chanPool)
+	pre := int64(n / 3)
+	nrec := r.Range(1, 4)
+	e2e := k%10 == 3 // every tenth: the queued batch is handed on to the real PUB sockets after PublishData returned
+	if e2e && r.Bool() {
+		ch = subChans[r.Intn(len(subChans))]
+	}
+	period, vpa := genF32(r), genF32(r)
+	b := Batch{Pub: spec}
+	pts := []int{0, 1, 2, 65535, 65534, 65533, 32767, 32768, 32769, 100, 65436, 0x0102}
+	for i := 0; i < nrec; i++ {
+		c := Case{Chan: ch, Signed: signed, Pre: pre, Period: period, Vpa: vpa, Time: genI64(r), Frame: genI64(r), E2E: e2e}
+		c.Data = make([]int, n)
+		for j := range c.Data {
+			if r.Chance(2, 3) {
+				c.Data[j] = r.Pick(pts)
+			} else {
+				c.Data[j] = r.Range(0, 65535)
+			}
+		}
+		for j := 0; j < 5; j++ {
+			c.Vals = append(c.Vals, genF64(r))
+		}
+		c.Coefs = make([]uint64, nc)
+		for j := range c.Coefs {
+			c.Coefs[j] = genF64(r)
+		}
+		b.Ops = append(b.Ops, c)
+	}
+	return b
+}
+
 func gen(seed uint64, tier string) []interface{} {
 	r := lib.NewRng(seed)
 	n := 260
@@ -410,6 +472,19 @@ func gen(seed uint64, tier string) []interface{} {
 			batches[i].Stress = 20000
 			want--
 		}
+	}
+	// batches through the real DataPublisher.PublishData with file writers active: what is published must still
+	// be the record's samples when the publisher goroutine gets to the queued batch after the writers have run
+	np := 30
+	if tier == "thorough" {
+		np = 400
+	}
+	pr := lib.NewRng(seed ^ 0x9b11)
+	for k := 0; k < np; k++ {
+		pb := genPubBatch(pr.Fork(), k)
+		pb.ID = id
+		id++
+		batches = append(batches, pb)
 	}
 	var out []interface{}
 	for _, b := range batches {
@@ -606,10 +681,12 @@ func subscribed(ch int) bool {
 // about a record's message, both are reported together (more than two frames: rejected).  A message that does
 // not arrive within recvTimeout is reported as the empty message for that record and for the records after it,
 // and the session is not used again: from here on a missing message is an observation, not a transport excuse.
-func (s *session) roundtripBatch(vs []dastard.VerifRecord) (msgs [][2][][]byte, complete bool) {
+func (s *session) roundtripBatch(vs []dastard.VerifRecord, alreadySent bool) (msgs [][2][][]byte, complete bool) {
 	msgs = make([][2][][]byte, len(vs))
-	s.pub[0].SendBatch(vs)
-	s.pub[1].SendBatch(vs)
+	if !alreadySent { // (a PublishData batch has been forwarded to the publishers by VerifPublishThenEncode)
+		s.pub[0].SendBatch(vs)
+		s.pub[1].SendBatch(vs)
+	}
 	for w := 0; w < 2; w++ {
 		for i := range vs {
 			m, err := s.all[w].RecvMessageBytes(0)
@@ -822,16 +899,50 @@ func runBatch(b Batch) lib.Result {
 	res.Hash = lib.Hash(struct {
 		O, I int
 		H    []hashed
-	}{b.Order, b.IdleMs + b.Stress, hs})
+		P    *PubSpec
+	}{b.Order, b.IdleMs + b.Stress, hs, b.Pub})
 
 	// phase 1: build every message of the batch; the returned frames are kept as they are (not copied)
 	panicMsg := ""
+	pubForwarded := false
 	func() {
 		defer func() {
 			if e := recover(); e != nil {
 				panicMsg = fmt.Sprint(e)
 			}
 		}()
+		if b.Pub != nil {
+			dir, err := os.MkdirTemp("", "verif_c14_")
+			if err != nil {
+				panic(err)
+			}
+			defer os.RemoveAll(dir)
+			vs := make([]dastard.VerifRecord, len(ps))
+			allE2E := true
+			for i, p := range ps {
+				vs[i] = p.v
+				allE2E = allE2E && p.c.E2E
+			}
+			var forward [2]*dastard.VerifPub
+			var s *session
+			if allE2E {
+				if s = getSession(); s != nil && s.ok {
+					forward = s.pub
+					pubForwarded = true
+				}
+			}
+			recs, sums, _ := dastard.VerifPublishThenEncode(vs, b.Pub.Writers, b.Pub.Paused, dir, forward)
+			for i, p := range ps {
+				p.recmsg, p.summsg = [][]byte{}, [][]byte{}
+				if i < len(recs) {
+					p.recmsg = recs[i]
+				}
+				if i < len(sums) {
+					p.summsg = sums[i]
+				}
+			}
+			return
+		}
 		switch b.Order {
 		case 1:
 			for _, p := range ps {
@@ -897,7 +1008,7 @@ func runBatch(b Batch) lib.Result {
 			e2e = append(e2e, p)
 		}
 	}
-	if len(e2e) > 0 && panicMsg == "" {
+	if len(e2e) > 0 && panicMsg == "" && (b.Pub == nil || pubForwarded) {
 		if s := getSession(); s == nil || !s.ok {
 			tag := "e2e-unavailable(direct call used)"
 			if s != nil {
@@ -911,7 +1022,7 @@ func runBatch(b Batch) lib.Result {
 			for i, p := range e2e {
 				vs[i] = p.v
 			}
-			msgs, complete := s.roundtripBatch(vs)
+			msgs, complete := s.roundtripBatch(vs, pubForwarded)
 			for i, p := range e2e {
 				p.recmsg, p.summsg = msgs[i][0], msgs[i][1]
 				if p.recmsg == nil {
@@ -1000,6 +1111,15 @@ func runBatch(b Batch) lib.Result {
 	}
 	if stressed {
 		tags["concurrent-encode-stress"] = true
+	}
+	if b.Pub != nil {
+		tags[fmt.Sprintf("through-PublishData-writers-mask-%d(1=LJH2.2,2=LJH3,4=OFF)", b.Pub.Writers)] = true
+		if b.Pub.Paused {
+			tags["through-PublishData-writing-paused"] = true
+		}
+		if pubForwarded {
+			tags["through-PublishData-then-real-PUB-socket"] = true
+		}
 	}
 	if panicMsg != "" {
 		tags["panic"] = true
